@@ -824,6 +824,9 @@ class C16(BbProp):
                                 % (o.op, prev.A[0], len(prev.A[1]), o.A[0], len(o.A[1]))))
             if t[1] == "clear" and o.A is not None and o.A[1]:
                 out.append(viol("clear", "stream not empty after clear"))
+            if t[1] == "clear" and o.A is not None and prev.A is not None and o.A[0] != prev.A[0]:
+                # clearing empties the stream; the configured maximum stays
+                out.append(viol("clear-bound", "clear() changed the configured maximum from %d to %d" % (prev.A[0], o.A[0])))
             return out
         if prev.A is None:
             if o.A is not None:
